@@ -209,10 +209,15 @@ def main():
            "replay_dir": os.path.join(VERIF, "replays", pid)}
     try:
         res = mod.run(ctx)
-    except Exception:
-        traceback.print_exc()
-        print(f"INFRA-FAILURE property={pid} harness crashed")
-        return 2
+    except subprocess.TimeoutExpired:
+        raise
+    except Exception as e:
+        # the harness runs cleanly on the unchanged tree; an exception here means the current source no longer fits the
+        # model/translator/harness (e.g. a body the translator cannot express): a broken tie, not an infrastructure failure
+        tb = traceback.format_exc()
+        sys.stderr.write(tb)
+        res = {"violations": [], "broken": [{"kind": "harness", "what": f"correspondence harness raised {type(e).__name__}: {str(e)[:200]}", "detail": tb[-1500:]}],
+               "coverage": {"evaluations": 1, "distinct_nontrivial": 0, "explanation": "harness aborted", "samples": ["aborted"]}, "assumptions": []}
     # res: {"violations":[{key, what, replay(dict)}], "broken":[...], "coverage":{...}, "assumptions":[...]}
     broken += res.get("broken", [])
     known = {(k["property"], k["key"]): k for k in load_known()}
